@@ -2,7 +2,7 @@
    _process_message on the other) must rewrite the addresses exactly as [hop] does, or be refused
    where [hop] refuses.  Names are interned as numbers by the harness; the payload is a number
    standing for the (pickled and compared) payload fields. *)
-Require Export QV.Lib.Corr QV.C02.Model.
+Require Export QV.Lib.Corr QV.C02.Model QV.C02.ModelPeers.
 
 Definition idmsg := msg nat.
 (* sname rname alias_r alias_s, message (src ctx/obj, dst ctx/obj, payload id), observed result *)
@@ -21,3 +21,10 @@ Definition t5_eqb (a b : nat * nat * nat * nat * nat) : bool :=
 
 Definition check_case (c : case) : bool :=
   let '(_, _, _, _, _, obs) := c in option_eqb t5_eqb (model_out c) obs.
+
+(* peers table: a history of connects / disconnects and the table observed on the real _SocketManager
+   (alias number, connection id) in insertion order *)
+Definition pcase := (list pop * list (nat * nat))%type.
+Definition check_pcase (c : pcase) : bool :=
+  let '(ops, obs) := c in
+  list_eqb (pair_eqb Nat.eqb Nat.eqb) (table (prun ops)) obs.
